@@ -21,6 +21,10 @@ class Ctx:
             except Exception:
                 pass
         self.nctx = self.t.ctx(idx.enums, aliases)
+        try:
+            self.nctx.never_none = frozenset(self._never_none_attrs())
+        except Exception:
+            self.nctx.never_none = frozenset()
         self.w = dl.Widths(idx, fi.cls, self.t, extra_bits)
         self.eng = dl.Engine(self.w, self.nctx)
         if not getattr(self.t, "wires_expanded", False):
@@ -542,6 +546,12 @@ class Ctx:
                 e = ir.norm(e2, self.nctx)
         if ir.contains(e, lambda x: x[0] == 'last'):
             e = ir.norm(ir.subst(e, self._last), self.nctx)
+        if ir.contains(e, lambda x: x[0] == 'cmp' and x[1] == 'is' and x[3] == ('const', None) and x[2][0] == 'attr' and x[2][1] == ('name', 'self')):
+            nn = self._never_none_attrs()
+            e2 = ir.subst(e, lambda x: ('const', False) if x[0] == 'cmp' and x[1] == 'is' and x[3] == ('const', None) and x[2][0] == 'attr' and
+                          x[2][1] == ('name', 'self') and x[2][2] in nn else None)
+            if e2 != e:
+                e = ir.norm(e2, self.nctx)
         if ir.contains(e, lambda x: x[0] == 'attr' and x[1][0] == 'call' and x[1][1][0] in ('name', 'attr')):
             e2 = ir.subst(e, self._ctor_field)
             if e2 != e:
@@ -551,6 +561,31 @@ class Ctx:
             if e2 != e:
                 e = ir.norm(e2, self.nctx)
         return e
+
+    def _never_none_attrs(self):
+        """Attributes of the component that every store in the class binds to the result of a call (an object created or requested
+        there: a port, a register, a signal) -- never to None, a parameter or another name.  Where such an attribute exists it is
+        not None."""
+        if getattr(self, "_nn_attrs", None) is None:
+            out, bad = set(), set()
+            cls = self.fi.cls
+            for k_ in ([cls] + self.idx.bases_of(cls)) if cls is not None else []:
+                for fs in k_.methods.values():
+                    for f_ in fs:
+                        for st in ast.walk(f_.node):
+                            tg = st.targets if isinstance(st, ast.Assign) else ([st.target] if isinstance(st, (ast.AugAssign, ast.AnnAssign)) else [])
+                            for t in tg:
+                                for t2 in (t.elts if isinstance(t, (ast.Tuple, ast.List)) else [t]):
+                                    if isinstance(t2, ast.Attribute) and isinstance(t2.value, ast.Name) and t2.value.id == "self":
+                                        v = getattr(st, "value", None)
+                                        if isinstance(st, ast.Assign) and isinstance(v, ast.Call) and not isinstance(t, (ast.Tuple, ast.List)) and \
+                                                not (isinstance(v.func, ast.Name) and v.func.id in ("getattr", "next", "dict.get")) and \
+                                                not (isinstance(v.func, ast.Attribute) and v.func.attr in ("get", "pop")):
+                                            out.add(t2.attr)
+                                        else:
+                                            bad.add(t2.attr)
+            self._nn_attrs = out - bad
+        return self._nn_attrs
 
     def _ctor_field(self, x):
         """`Cls(a=A, b=B).a` is A when Cls.__init__ stores its parameter unconditionally and `a` is the plain read-only
